@@ -55,6 +55,7 @@ inductive EvName where
 /-- what the harness can observe at the trait objects -/
 inductive Obs where
   | call (id : Nat) (kind : CK) (dev seq bd : Option Nat) (isTry : Bool) (dec : Dec)
+  | resolved (id : Nat) (ok : Bool)          -- a parked call is resolved by the client
   | will (bd : Nat)
   | poll
   | polled (e : EvName)
@@ -588,7 +589,7 @@ def applyStim (s : St) : Stim → St × List Obs
   | .resolve id ok =>
     match s.calls[id]? with
     | some c =>
-      if c.res.isNone then ({ s with calls := s.calls.set id { c with res := some ok } }, []) else (s, [])
+      if c.res.isNone then ({ s with calls := s.calls.set id { c with res := some ok } }, [.resolved id ok]) else (s, [])
     | none => (s, [])
   | .advance ms => ({ s with wall := s.wall + ms }, [])
   | .cbPark t on =>
